@@ -152,8 +152,26 @@ var words = []string{"gopls", "editor", "bug", "go/build", "flag", "vim", "emacs
 	"measure x", "a b  c", "x:y", "a-b_c.d/e", "https://go.dev/issue/61038", "1.21", "café", "日本語",
 	"a b", "é", "あ", "--", "---x", "-", "0", "title", "counter", "k: v", "v1.2.3", "go1.23rc1", "stack", "partition"}
 
+// bytes and characters that are white space or control characters somewhere
+// (unicode.IsSpace, line and paragraph separators, C0/C1 controls, BOM, zero
+// width space): legal INSIDE a value, where only '#' and '\n' are excluded
+var interior = []string{"\r", "\t", "\v", "\f", "\r\r", " \r ", "\u0085", "\u00a0", "\u1680", "\u2000", "\u2003", "\u200a", "\u2028", "\u2029",
+	"\u202f", "\u205f", "\u3000", "\x00", "\x01", "\x1b", "\x1c", "\x1f", "\x7f", "\ufeff", "\u200b", "\x85", "\xa0", "\xc2", "\xe2\x80"}
+
+// a value with such a character strictly inside (the ends stay non-space)
+func genInterior() string {
+	out.Note("interior-space-or-control")
+	c := Pick(rnd, interior)
+	if c[0] == '\r' {
+		out.Note("interior-cr")
+	}
+	return Pick(rnd, []string{"progress:", "a", "vim", "x y", "é", "100%"}) + c + Pick(rnd, []string{"100% done", "b", "im", "z", "日本"})
+}
+
 func genPlain() string {
-	switch rnd.Intn(12) {
+	switch rnd.Intn(14) {
+	case 12, 13:
+		return genInterior()
 	case 0:
 		return Pick(rnd, words) + " " + Pick(rnd, words)
 	case 1:
@@ -186,6 +204,9 @@ func genItems() []string {
 	its := make([]string, n)
 	for i := range its {
 		its[i] = Pick(rnd, []string{"emacs", "vim", "vscode", "other", "1.21", "c-archive", "a b", "x", "été", "-", "--", "a:b"})
+		if rnd.Intn(12) == 0 {
+			its[i] = genInterior() // e.g. "v\rim" as a bucket name
+		}
 	}
 	return its
 }
@@ -302,11 +323,11 @@ func genComment() string {
 	if rnd.Chance(60) {
 		return ""
 	}
-	return "#" + Pick(rnd, []string{"", " a comment", " TODO(x): {more}", " # nested", "}{", " counter: x", "---"})
+	return "#" + Pick(rnd, []string{"", " a comment", " TODO(x): {more}", " # nested", "}{", " counter: x", "---", " a\rtitle: b", "\r", " x\u2028y", "\x00"})
 }
 
 func genFiller() string {
-	return Pick(rnd, []string{"", " ", "\t", "# a comment", "  # indented comment {", "#", "# ---", "   "})
+	return Pick(rnd, []string{"", " ", "\t", "# a comment", "  # indented comment {", "#", "# ---", "   ", "# a\rb", "#\r---", " # \u0085 \v"})
 }
 
 func genStyle() rstyle {
